@@ -403,6 +403,16 @@ class Interp:
                 if sep_:
                     parts_ = a0.split(sep_)
                     return ("iter", _It(parts_ if name == "split" else parts_[::-1]))
+            if name in ("split_once", "rsplit_once") and len(argv) == 2 and (isinstance(argv[1], str) or (isinstance(argv[1], int) and not isinstance(argv[1], bool))):
+                pat_ = argv[1] if isinstance(argv[1], str) else chr(argv[1])
+                k_ = a0.find(pat_) if name == "split_once" else a0.rfind(pat_)
+                return adt(OPT_, 0, []) if (k_ < 0 or not pat_) else adt(OPT_, 1, [("tuple", [a0[:k_], a0[k_ + len(pat_):]])])
+            if name in ("find", "rfind") and len(argv) == 2 and (isinstance(argv[1], str) or (isinstance(argv[1], int) and not isinstance(argv[1], bool))):
+                pat_ = argv[1] if isinstance(argv[1], str) else chr(argv[1])
+                k_ = a0.find(pat_) if name == "find" else a0.rfind(pat_)
+                return adt(OPT_, 0, []) if k_ < 0 else adt(OPT_, 1, [len(a0[:k_].encode())])
+            if name in ("eq_ignore_ascii_case",) and len(argv) == 2 and isinstance(argv[1], str):
+                return a0.lower() == argv[1].lower() if a0.isascii() and argv[1].isascii() else a0 == argv[1]
             if name in ("starts_with", "ends_with", "contains") and len(argv) == 2 and (isinstance(argv[1], str) or (isinstance(argv[1], int) and not isinstance(argv[1], bool))):
                 pat_ = argv[1] if isinstance(argv[1], str) else chr(argv[1])
                 return a0.startswith(pat_) if name == "starts_with" else a0.endswith(pat_) if name == "ends_with" else pat_ in a0
@@ -445,6 +455,25 @@ class Interp:
                 return adt(OPT_, 1, [b0[0 if name == "first" else -1]]) if b0 else adt(OPT_, 0, [])
             if name == "contains" and len(argv) == 2 and isinstance(argv[1], int):
                 return argv[1] in b0
+        if isinstance(a0, tuple) and a0 and a0[0] == "array" and name in ("binary_search", "contains") and len(argv) == 2 and d.startswith("core::slice::<impl [T]>::") \
+                and all(isinstance(x_, (str, int)) and not isinstance(x_, bool) for x_ in list(a0[1]) + [argv[1]]) and len({type(x_) for x_ in list(a0[1]) + [argv[1]]}) <= 1:
+            items_, key_ = list(a0[1]), argv[1]
+            if name == "contains":
+                return key_ in items_
+            # core's binary search, step for step (its answer on an unsorted slice is whatever these steps produce)
+            size_ = len(items_)
+            if size_ == 0:
+                return adt("core::result::Result", 1, [0])
+            base_ = 0
+            while size_ > 1:
+                half_ = size_ // 2
+                mid_ = base_ + half_
+                if not items_[mid_] > key_:
+                    base_ = mid_
+                size_ -= half_
+            if items_[base_] == key_:
+                return adt("core::result::Result", 0, [base_])
+            return adt("core::result::Result", 1, [base_ + (1 if items_[base_] < key_ else 0)])
         if isinstance(a0, tuple) and a0 and a0[0] == "array" and name in ("iter", "into_iter") and not contains_opaque(a0):
             return ("iter", _It(list(a0[1])))
         if name == "into_iter" and d == "core::iter::traits::collect::IntoIterator::into_iter":
@@ -721,7 +750,8 @@ class Interp:
                     cst = self.crate.consts.get(c[k]) if hasattr(self.crate, "consts") else None
                     if cst and "int" in cst:
                         return cst["int"]
-                    if (cst and (cst.get("ty") or {}).get("adt")) or cst is None:
+                    ref_to_table = bool(cst) and "ref" in (cst.get("ty") or {}) and any(k_ in ((cst["ty"].get("ref") or {})) for k_ in ("slice", "array"))
+                    if (cst and (cst.get("ty") or {}).get("adt")) or cst is None or ref_to_table:
                         # (also an associated const, `Self::MAX`, which is not in the table of free const items)
                         # a structured constant (`const R: RangeInclusive<i64> = -L..=L`): evaluate its initialiser
                         v_ = self._const_body_value(c[k])
